@@ -1,7 +1,10 @@
 package rules
 
 import (
+	"strings"
+
 	"fv/internal/bounds"
+	"fv/internal/core"
 	"fv/internal/lin"
 	"fv/internal/ssax"
 
@@ -223,4 +226,35 @@ func argThrough(anchor *ssa.Function, v ssa.Value) ssa.Value {
 		return v
 	}
 	return argThrough(anchor, found)
+}
+
+// decoderPerLoop: the stateful frame decoder (a buffering TFramedTransport
+// around the connection) lives as long as the read loop — it is built once,
+// outside the frame-consuming cycle. A decoder built per frame throws away
+// what its reader buffered beyond the current frame: when two responses
+// arrive in one read, the second is lost (its caller times out) or the stream
+// loses frame alignment.
+func decoderPerLoop(ctx *core.Ctx, r *RT, rule string) {
+	isExec := func(c ssax.Call) bool { return c.Method != nil && c.Method.Name() == "Execute" }
+	n := 0
+	for fn := range spawned(r) {
+		if !cycleReaches(fn, isExec) {
+			continue
+		}
+		for _, g := range localCone(fn, 2) {
+			for _, c := range ssax.Calls(g) {
+				if c.Static == nil || !strings.HasPrefix(c.Static.Name(), "NewTFramedTransport") {
+					continue
+				}
+				n++
+				in := c.Instr.(ssa.Instruction)
+				perFrame := inCycle(in) || (g != fn && r.onCycle(in))
+				ctx.Check(!perFrame, rule, ssax.Name(fn)+sprintf(" › frame decoder #%d is built once per read loop", n), r.IPos(in), "NewTFramedTransport outside the frame-consuming cycle",
+					"the buffering frame decoder is rebuilt for every frame ("+ssax.Name(g)+"): bytes it read ahead — the next response when two arrive in one read — are discarded with it, so that response is never delivered and its caller times out, or the stream loses frame alignment")
+			}
+		}
+	}
+	if n == 0 {
+		ctx.Discharge(rule, "reader loops › no framing decoder", "", "no reader loop builds a TFramedTransport")
+	}
 }
